@@ -16,7 +16,8 @@ EXTENDS DesignPower, Json, TLC
 CONSTANTS MaxSpans,      \* 1..3
           LossSet,       \* raw span losses (micro-dB)
           MultiUser,     \* FALSE: at most one amplifier carries operator settings; TRUE: any combination
-          Rich,          \* TRUE: B1-only profiles as well (ties, automatic VOA, low extended maximum gain)
+          Rich,          \* TRUE: the further profile families as well (ties, automatic VOA, low extended maximum
+                         \*       gain, amp -> amp, two auto-selectable models, line starting at a transceiver)
           EmitStride1,   \* B2 emission: every EmitStride1-th one-span design, every EmitStride2-th longer one
           EmitStride2    \*              (1 = all); all designs are CHECKED in any case
 
@@ -81,9 +82,9 @@ TrxProfilesOf(n, losses) ==
 
 MCProfiles ==
     UNION {ProfilesOf(n, LossSet, 0) : n \in 1..MaxSpans}
-      \cup ProfilesOf(1, LossSet, 5)                  \* two auto-selectable models of nearly equal p_max
-      \cup TrxProfilesOf(1, LossSet) \cup TrxProfilesOf(2, {cdB(1430), cdB(2770)})
-      \cup (IF Rich THEN ProfilesOf(1, MCLossesTie \cup {cdB(2000)}, 3)      \* rounding ties
+      \cup (IF Rich THEN ProfilesOf(1, LossSet, 5)       \* two auto-selectable models of nearly equal p_max
+                          \cup TrxProfilesOf(1, LossSet) \cup TrxProfilesOf(2, {cdB(1430), cdB(2770)})
+                          \cup ProfilesOf(1, MCLossesTie \cup {cdB(2000)}, 3)      \* rounding ties
                           \cup ProfilesOf(1, {cdB(2000), cdB(2770)}, 1)      \* automatic output VOA
                           \cup ProfilesOf(2, {cdB(2770)}, 2)                 \* low extended maximum gain
                           \cup ProfilesOf(2, {0, cdB(2000)}, 4)              \* amplifier directly after an amplifier
@@ -101,7 +102,8 @@ NoTieOnGrid == \A k \in 1..Len(oms.amps) :
 \* deterministic spread over every dimension of the grid selects the designs to replay when a stride is set
 Spread == cfg.mode + cfg.slope \div 100 + cfg.lo \div 1000000 + oms.t0 \div 500000
           + SumSeq([k \in 1..Len(oms.amps) |-> oms.amps[k].L \div 10000 + 7 * k * oms.amps[k].kind])
-Selected == LET st == IF Len(oms.amps) = 2 \/ oms.rich # 0 THEN EmitStride1 ELSE EmitStride2 IN Spread % st = 0
+Selected == LET st == IF oms.rich # 0 THEN 3 * EmitStride1 ELSE IF Len(oms.amps) = 2 THEN EmitStride1 ELSE EmitStride2
+            IN Spread % st = 0
 Emit == i < Len(oms.amps) \/ oms.rich \notin {0, 1, 5, 6} \/ ~Selected
           \/ PrintT("@@" \o ToJson([cfg |-> cfg, oms |-> oms, out |-> out]))
 ==============================================================================
